@@ -22,7 +22,6 @@ func VerifC20Misc() {
 	case 0:
 		m := New(nil, Schema{"A": {}}, nil)
 		id, _ := m.HandlersBindMaps(map[string]HandlerNegotiation{"AEnter": func(e *Event) bool { return true }}, nil)
-		vKnown("c20-detachhandlers-recursion", true)
 		err := m.DetachHandlers(id)
 		vAssert("detach-ok", err == nil)
 	case 1:
@@ -33,11 +32,11 @@ func VerifC20Misc() {
 		s.eventHook = func(name string, e *Event) {
 			if name == "AState" && !forked {
 				forked = true
-				s.m.PoolFork(nil, e, func() {})
+				s.m.PoolFork(context.Background(), e, func() {})
 			}
 		}
 		s.m.Add1("A", nil)
-		vAssert("poolfork-survives", true)
+		vAssert("no-handler-fault", !s.m.IsErr())
 	}
 }
 
